@@ -6,7 +6,7 @@ fold the RFC constants) assumes.  Tokenizer: per operation, which SBuf search ru
 amount handed to consume()/consumeTrailing() is the matched length and its result is what is returned.  Unrecognised shapes end in exit 2."""
 from .. import expr as E
 from ..flow import ev_call
-from .C49 import Terms, Unrec, gate, same, events, the_call, lin_or_broken, is_ret, ret_const, pnames, orderings
+from .C49 import Terms, Unrec, gate, same, events, the_call, lin_or_broken, is_ret, ret_const, pnames, orderings, track_orderings
 
 CS, TK = "CharacterSet::", "Parser::Tokenizer::"
 CHARS = CS + "chars_"
@@ -449,7 +449,9 @@ def tokenizer(ck, facts):
     put = lambda ev: ev.get("e") == "call" and match(ev["x"], ("call", "SBuf::operator=", ("ref", out), [("call", TK + "consume", None, [None])]))
     took = lambda ev: ev.get("e") == "call" and E.key(ev["x"]) == E.key(take)
     cap = lambda ev: ev.get("e") == "asg" and E.key(ev["lhs"]) == n
-    fl = ck.flow(fn, markers={"put": put, "took": took, "capped": cap}, track_markers=["took", "capped"])
+    at_end = find(ck, fn, ("call", TK + "atEnd", None, []), "atEnd()")[0]
+    on_edge, on_event = track_orderings(T, {"n": ("0", n), "end": ("0", at_end), "limit": ("0", limit)})
+    fl = ck.flow(fn, markers={"put": put, "took": took, "capped": cap}, track_markers=["took", "capped"], on_edge=on_edge, on_event=on_event)
     caps = fl.find(cap)
     for s in caps:
         same(ck, "K3.prefix-cap", fn, s.line, "replacement for the prefix length", lin_or_broken(T, s.ev["rhs"], "length"), {limit: 1}, "(only the limit may stand in for 'everything matched')")
@@ -467,8 +469,14 @@ def tokenizer(ck, facts):
             ck.ok("K3.prefix-fail", s.where(), "prefix() fails only with n == 0 or n == npos, consuming nothing")
         else:
             ck.violation("K3.prefix-fail", "K3|prefix|fails-with-a-match", s.where(), "prefix() can return false although the search found a non-empty prefix (n neither 0 nor npos on this path)", fl.witness(s))
-    ck.require_any("K3.prefix-fail-npos", fn, ret_const(0), [(E.m_is_ref(n), False), (E.m_calls(TK + "atEnd"), True), (E.m_is_ref(limit), False)], "return false",
-                   why="(with n == npos, a non-empty buffer and a non-zero limit the whole limited haystack matched: that is a success)")
+    for s in fl.find(ret_const(0)):
+        why = [w for w, k, ok in (("n == 0", "%o:n", "="), ("atEnd()", "%o:end", "<>"), ("limit == 0", "%o:limit", "=")) if k in s.env and set(s.env[k]) <= set(ok)]
+        if why:
+            ck.ok("K3.prefix-fail-npos", s.where(), "prefix() fails on a path where the last tests established %s" % " / ".join(why))
+        else:
+            ck.violation("K3.prefix-fail-npos", "K3|prefix|fails-with-whole-haystack-matched", s.where(),
+                         "prefix() can return false on a path with none of n == 0, atEnd(), limit == 0 established: with n == npos, a non-empty buffer and a non-zero limit the "
+                         "whole limited haystack matched, which is a success", fl.witness(s))
 
     ck.rule("K4 LOOP suffix(tok, set, limit): span = buf_ is cut by buf_.length() - limit only with limit < buf_.length(); the cursor starts at span.rbegin() and advances only with "
             "cursor != span.rend() and set[*cursor]; `found` starts at 0 and is incremented exactly as often as the cursor; tok = consumeTrailing(found) only with found != 0; "
